@@ -42,27 +42,28 @@ func (e *Injected) Error() string { return e.Tag }
 
 // Session is the per-task state of the stub.
 type Session struct {
-	TaskID     int
-	Log        []string                           // rendering of the node built by each call, in call order
-	Calls      int                                // number of calls so far in the current operation
-	Ctx        interface{}                        // the object stored in Parser.Context for this task
-	FaultCall  int                                // 1-based call index to fault at; 0 = none
-	FaultKind  string                             // error | panic
-	Fault      *Injected                          // the injected value (set when the fault fires)
-	Handed     map[interface{}]bool               // tokens the task's scanner handed out in the current operation
-	Render     func(x interface{}) (string, bool) // glue: grammar-specific rendering (tokens, error attributes)
-	SwapAt     int                                // > 0: from this $Context-using call on the stub stores a NEW value in the parser's Context field (through SetCtx)
-	SetCtx     func(c interface{})                // installed by the harness: assigns the parser's Context field
-	NextCtx    func(cur interface{}) interface{}  // the value to store
-	Mutate     func(tok interface{})              // if set: every token argument is modified in place AFTER it was logged
-	NestAt     int                                // > 0: at this call the action runs ANOTHER parser of the same package to completion (Nested)
-	Nested     func()                             // installed by the harness
-	TokMethods func(tok interface{}) string       // if set: the convenience methods of every token argument are called (IDValue, Int64Value, ...)
-	Problems   []string                           // invariant violations noticed at call time
-	AfterFault int                                // calls made after the fault fired (must stay 0)
-	MethodCalls  int    // token arguments whose convenience methods were called in the current operation
-	MethodDigest uint64 // running digest of what they returned
-	Deep       bool                               // RenderVal renders a node again from the values it holds instead of returning the text made when it was built
+	TaskID       int
+	Log          []string                           // rendering of the node built by each call, in call order
+	Calls        int                                // number of calls so far in the current operation
+	Ctx          interface{}                        // the object stored in Parser.Context for this task
+	FaultCall    int                                // 1-based call index to fault at; 0 = none
+	FaultKind    string                             // error | panic
+	Fault        *Injected                          // the injected value (set when the fault fires)
+	Handed       map[interface{}]bool               // tokens the task's scanner handed out in the current operation
+	Render       func(x interface{}) (string, bool) // glue: grammar-specific rendering (tokens, error attributes)
+	SwapAt       int                                // > 0: from this $Context-using call on the stub stores a NEW value in the parser's Context field (through SetCtx)
+	SetCtx       func(c interface{})                // installed by the harness: assigns the parser's Context field
+	NextCtx      func(cur interface{}) interface{}  // the value to store
+	Mutate       func(tok interface{})              // if set: every token argument is modified in place AFTER it was logged
+	NestAt       int                                // > 0: at this call the action runs ANOTHER parser of the same package to completion (Nested)
+	Nested       func()                             // installed by the harness
+	TokMethods   func(tok interface{}) string       // if set: the convenience methods of every token argument are called (IDValue, Int64Value, ...)
+	Problems     []string                           // invariant violations noticed at call time
+	AfterFault   int                                // calls made after the fault fired (must stay 0)
+	MethodCalls  int                                // token arguments whose convenience methods were called in the current operation
+	MethodDigest uint64                             // running digest of what they returned
+	Shapes       map[int][]string                   // per label: what each argument must be ("err", "tok:<id>", "tok", "any", "const")
+	Deep         bool                               // RenderVal renders a node again from the values it holds instead of returning the text made when it was built
 }
 
 // Begin resets the per-operation state.
@@ -138,6 +139,24 @@ func (s *Session) call(ctx interface{}, withCtx bool, alt int, args []interface{
 				if str, ok := s.Render(a); ok && strings.HasPrefix(str, "T<") && !s.Handed[a] {
 					s.Problems = append(s.Problems, fmt.Sprintf("call %d (alt %d): token argument %d (%s) is not an object this task's scanner returned", s.Calls, alt, i, str))
 				}
+			}
+		}
+	}
+	if sh, ok := s.Shapes[alt]; ok && len(sh) == len(parts) && s.Mutate == nil {
+		// $i is the attribute of the i-th body symbol: a terminal's attribute is a token
+		// of that terminal's type, the first attribute of an `error` alternative is the error
+		for i, want := range sh {
+			ok := true
+			switch {
+			case want == "err":
+				ok = strings.HasPrefix(parts[i], "E{")
+			case want == "tok":
+				ok = strings.HasPrefix(parts[i], "T<")
+			case strings.HasPrefix(want, "tok:"):
+				ok = strings.HasPrefix(parts[i], "T<"+want[4:]+">")
+			}
+			if !ok {
+				s.Problems = append(s.Problems, fmt.Sprintf("call %d (alt %d): argument %d must be %s (the attribute of that body symbol) but is %s", s.Calls, alt, i, want, clipA(parts[i])))
 			}
 		}
 	}
@@ -218,4 +237,11 @@ func Shorten(s string) string {
 		h = (h ^ uint64(s[i])) * 1099511628211
 	}
 	return "#" + strconv.FormatUint(h, 16) + ":" + strconv.Itoa(len(s))
+}
+
+func clipA(s string) string {
+	if len(s) > 120 {
+		return s[:120] + "..."
+	}
+	return s
 }
